@@ -438,12 +438,29 @@ class MetaDataReplace(MosFile):
         """
         return self.base_tag.find('roSlug').text
 
+    def _find_target(self, parent: Element, source: Element) -> Tuple[Optional[Element], Optional[int]]:
+        """
+        Find the child of *parent* which *source* replaces and return
+        ``(child, index)``, or ``(None, None)`` if *source* is to be added: the
+        first child with the same tag and, for a ``mosExternalMetadata`` block,
+        the same ``mosSchema``.
+        """
+        for i, child in enumerate(parent):
+            if child.tag == source.tag:
+                if source.tag != 'mosExternalMetadata':
+                    return (child, i)
+                child_schema = child.find('mosSchema')
+                source_schema = source.find('mosSchema')
+                if child_schema is not None and source_schema is not None and child_schema.text == source_schema.text:
+                    return (child, i)
+        return (None, None)
+
     def merge(self, ro: RunningOrder) -> RunningOrder:
         """
         Merge into the :class:`RunningOrder` object provided.
         """
         for source in self.base_tag:
-            target, target_index = find_child(parent=ro.base_tag, child_tag=source.tag)
+            target, target_index = self._find_target(ro.base_tag, source)
             if target is None:
                 insert_node(parent=ro.base_tag, node=copy.deepcopy(source), index=len(ro.base_tag))
             else:
